@@ -15,3 +15,6 @@ from . import spec_tables  # noqa: E402,F401
 from . import lookup  # noqa: E402,F401
 from . import options  # noqa: E402,F401
 from . import ioutils  # noqa: E402,F401
+from . import terms  # noqa: E402,F401
+from . import rows  # noqa: E402,F401
+from . import encode  # noqa: E402,F401
